@@ -5,6 +5,7 @@ use std::io::{BufRead, Write};
 
 mod ops_env;
 mod ops_graph;
+mod ops_inventory;
 mod ops_layer;
 mod ops_parse;
 mod ops_serde;
@@ -38,6 +39,9 @@ fn dispatch(op: &str, req: &Value) -> Value {
         "layer-trait" => ops_layer::layer_trait(req),
         "layer-det" => ops_layer::layer_det(req),
         "writer" => ops_writer::run(req),
+        "checksum" => ops_inventory::checksum(req),
+        "checksum-roundtrip" => ops_inventory::checksum_roundtrip(req),
+        "inventory" => ops_inventory::inventory(req),
         "serde-doc" => ops_serde::doc(req),
         "env-apply" => ops_env::apply(req),
         "env-roundtrip" => ops_env::roundtrip(req),
